@@ -359,3 +359,84 @@ Proof.
   split; [reflexivity|]. split; [exact tail_call_wf|].
   destruct ex_tail_run_push_only as (H1 & H2 & _). split; assumption.
 Qed.
+
+(* ---------------------------------------------------------------- (5) which tails finish() dispatches, in general *)
+(* Text level (the text is the lossy UTF-8 decoding of the body; events_spec is C15's chunking-free specification).
+   After a complete line: a tail of one or more CRs is a blank line (the event before it IS dispatched — the body cut
+   between the CR and the LF of its final blank line); any other unterminated non-blank tail dispatches nothing (an
+   LF body missing its final blank line, a last line without line end: whatever data line is pending is dropped). *)
+Lemma drop_while_all f (l : str) : forallb f l = true -> Sse.drop_while f l = [].
+Proof.
+  induction l as [|c r IH]; cbn [forallb Sse.drop_while]; [reflexivity|].
+  intros H. apply andb_true_iff in H. destruct H as [H1 H2]. rewrite H1. apply IH; exact H2.
+Qed.
+
+Lemma trim_end_cr_crs k : Sse.trim_end_cr (repeat 13 k) = [].
+Proof.
+  unfold Sse.trim_end_cr. rewrite drop_while_all; [reflexivity|].
+  apply forallb_forall. intros x Hx. apply in_rev in Hx. apply repeat_spec in Hx. subst x. reflexivity.
+Qed.
+
+Lemma no_nl_crs k : SseProofs.no_nl (repeat 13 k).
+Proof. unfold SseProofs.no_nl. apply forallb_forall. intros x Hx. apply repeat_spec in Hx. subst x. reflexivity. Qed.
+
+Lemma split_lines_nl_tail t b : SseProofs.no_nl b ->
+  Sse.split_lines [] (t ++ Sse.NL :: b)
+  = (fst (Sse.split_lines [] t) ++ [snd (Sse.split_lines [] t)], b).
+Proof.
+  intros Hb. rewrite SseProofs.split_lines_app.
+  destruct (Sse.split_lines [] t) as [l1 t1]. cbn [Sse.split_lines fst snd].
+  replace (Sse.NL =? Sse.NL) with true by reflexivity.
+  pose proof (SseProofs.split_lines_nonl b [] [] Hb) as E. rewrite app_nil_r in E. cbn [app Sse.split_lines] in E.
+  rewrite E. reflexivity.
+Qed.
+
+Lemma all_lines_nl_tail t b : SseProofs.no_nl b ->
+  Sse.all_lines (t ++ Sse.NL :: b)
+  = (fst (Sse.split_lines [] t) ++ [snd (Sse.split_lines [] t)]) ++ match b with [] => [] | _ :: _ => [b] end.
+Proof.
+  intros Hb. unfold Sse.all_lines. rewrite (split_lines_nl_tail t b Hb).
+  destruct b; [rewrite app_nil_r|]; reflexivity.
+Qed.
+
+Lemma line_step_blank classify s l : Sse.trim_end_cr l = [] -> Sse.line_step classify s l = Sse.line_step classify s [].
+Proof. intros H. unfold Sse.line_step. rewrite H. reflexivity. Qed.
+
+Lemma line_step_nonblank classify s l : Sse.trim_end_cr l <> [] -> snd (Sse.line_step classify s l) = [].
+Proof.
+  intros H. unfold Sse.line_step. destruct (Sse.trim_end_cr l) as [|c r] eqn:E; [contradiction|].
+  destruct (Sse.strip_prefix Sse.S_EVENT (c :: r)); [reflexivity|].
+  destruct (Sse.strip_prefix Sse.S_DATA (c :: r)); reflexivity.
+Qed.
+
+(* `<complete line>\n` followed by one or more CRs and the end of the stream = the same text with a blank line *)
+Theorem cr_tail_is_blank_line classify t n :
+  Sse.events_spec classify (t ++ Sse.NL :: repeat 13 (S n)) = Sse.events_spec classify (t ++ [Sse.NL; Sse.NL]).
+Proof.
+  unfold Sse.events_spec.
+  rewrite (all_lines_nl_tail t (repeat 13 (S n)) (no_nl_crs (S n))).
+  change (t ++ [Sse.NL; Sse.NL]) with (t ++ Sse.NL :: [Sse.NL]).
+  replace (t ++ Sse.NL :: [Sse.NL]) with ((t ++ [Sse.NL]) ++ Sse.NL :: []) by (rewrite <- app_assoc; reflexivity).
+  rewrite (all_lines_nl_tail (t ++ [Sse.NL]) [] eq_refl), app_nil_r.
+  rewrite (split_lines_nl_tail t [] eq_refl). cbn [fst snd repeat].
+  set (L := fst (Sse.split_lines [] t) ++ [snd (Sse.split_lines [] t)]).
+  do 2 rewrite SseProofs.fold_lines_app.
+  destruct (Sse.fold_lines classify (None, []) L) as [s1 e1].
+  cbn [Sse.fold_lines]. rewrite (line_step_blank classify s1 (13 :: repeat 13 n) (trim_end_cr_crs (S n))). reflexivity.
+Qed.
+
+(* `<complete line>\n` followed by an unterminated line that is not blank: nothing more is dispatched *)
+Theorem nonblank_tail_not_dispatched classify t l :
+  SseProofs.no_nl l -> Sse.trim_end_cr l <> [] ->
+  Sse.events_spec classify (t ++ Sse.NL :: l) = Sse.events_spec classify (t ++ [Sse.NL]).
+Proof.
+  intros Hn Hl. unfold Sse.events_spec.
+  rewrite (all_lines_nl_tail t l Hn), (all_lines_nl_tail t [] eq_refl), app_nil_r.
+  destruct l as [|c r]; [exfalso; apply Hl; reflexivity|].
+  set (L := fst (Sse.split_lines [] t) ++ [snd (Sse.split_lines [] t)]).
+  rewrite SseProofs.fold_lines_app.
+  destruct (Sse.fold_lines classify (None, []) L) as [s1 e1].
+  cbn [Sse.fold_lines snd]. pose proof (line_step_nonblank classify s1 (c :: r) Hl) as E.
+  destruct (Sse.line_step classify s1 (c :: r)) as [s2 e2]. cbn [snd] in E. subst e2.
+  cbn [snd]. rewrite app_nil_r. reflexivity.
+Qed.
